@@ -252,4 +252,285 @@ theorem C12_legal_moves {tbl : List Route} (hg : allGuarded tbl = true) (n : Nod
     | cons op ops ih => intro m hm; exact ih _ (step_histOk hg m op hm)
   exact gen ops n ⟨by simp [h0], by simp [h0, legalHist]⟩
 
+/-! ### while a node is not ON its interfaces are disabled -/
+
+def NicsOff (n : Node) : Prop := ∀ c ∈ n.nics, c.enabled = false
+
+/-- the invariant of the property statement -/
+def NicInv (n : Node) : Prop := n.st ≠ .on → NicsOff n
+
+theorem disableNics_off (n : Node) : NicsOff (disableNics n) := by
+  intro c hc
+  simp only [disableNics, List.mem_map] at hc
+  obtain ⟨c0, _, rfl⟩ := hc
+  rfl
+
+theorem nicEnable_false (c : Nic) : Nic.enable false c = c := by
+  unfold Nic.enable; split <;> simp
+
+theorem powerOn_nicInv (n : Node) (h : NicInv n) : NicInv (powerOn n).1 := by
+  unfold powerOn
+  split
+  · intro hne; exact absurd rfl hne
+  · split
+    · rename_i hoff
+      intro _
+      exact h (by rw [hoff]; decide)
+    · exact h
+
+theorem powerOff_nicInv (n : Node) (h : NicInv n) : NicInv (powerOff n).1 := by
+  unfold powerOff
+  split
+  · dsimp only
+    have hoff : NicsOff (setSt (shutDownActions (disableNics n)) .off) := disableNics_off n
+    split
+    · exact powerOn_nicInv _ (fun _ => hoff)
+    · exact fun _ => hoff
+  · split
+    · exact fun _ => disableNics_off n
+    · exact h
+
+theorem reset_nicInv (n : Node) (h : NicInv n) : NicInv (reset n).1 :=
+  powerOff_nicInv { n with resetting := true } h
+
+theorem tickUp_nicInv (n : Node) (h : NicInv n) : NicInv (tickUp n) := by
+  unfold tickUp
+  split
+  · exact h
+  · split
+    · intro hne; exact absurd rfl hne
+    · exact h
+
+theorem tickDown_nicInv (n : Node) (h : NicInv n) : NicInv (tickDown n) := by
+  unfold tickDown
+  split
+  · exact h
+  · split
+    · rename_i hsd
+      have hoff : NicsOff (shutDownActions (setSt n .off)) := h (by rw [hsd]; decide)
+      dsimp only
+      split
+      · exact powerOn_nicInv _ (fun _ => hoff)
+      · exact fun _ => hoff
+    · exact h
+
+theorem tick_nicInv (n : Node) (h : NicInv n) : NicInv (tick n) := by
+  have h2 := tickDown_nicInv _ (tickUp_nicInv n h)
+  unfold tick tickSoftware
+  split
+  · intro hne; exact absurd (by assumption) hne
+  · exact h2
+
+theorem nicRequest_nicInv (n : Node) (i : Nat) (v : NicVerb) (h : NicInv n) : NicInv (nicRequest n i v).1 := by
+  unfold nicRequest
+  split
+  · exact h
+  · rename_i c hc
+    cases v with
+    | enable =>
+      dsimp only
+      split
+      · intro hne c' hc'
+        have hne' : n.st ≠ .on := hne
+        have hison : n.isOn = false := by simp [Node.isOn, hne']
+        rcases List.mem_or_eq_of_mem_set hc' with hm | rfl
+        · exact h hne' c' hm
+        · rw [hison, nicEnable_false]
+          exact h hne' c (List.mem_of_getElem? hc)
+      · exact h
+    | disable =>
+      dsimp only
+      split
+      · intro hne c' hc'
+        rcases List.mem_or_eq_of_mem_set hc' with hm | rfl
+        · exact h hne c' hm
+        · rfl
+      · exact h
+
+/-- same state and same interfaces -/
+theorem nicInv_of_same {n n' : Node} (h1 : n'.st = n.st) (h2 : n'.nics = n.nics) (h : NicInv n) : NicInv n' := by
+  unfold NicInv NicsOff at *; rw [h1, h2]; exact h
+
+theorem svcRequest_nics (n : Node) (i : Nat) (v : SvcVerb) :
+    (svcRequest n i v).1.st = n.st ∧ (svcRequest n i v).1.nics = n.nics := by
+  unfold svcRequest; split
+  · exact ⟨rfl, rfl⟩
+  · split <;> exact ⟨rfl, rfl⟩
+
+theorem appRequest_nics (n : Node) (i : Nat) :
+    (appRequest n i).1.st = n.st ∧ (appRequest n i).1.nics = n.nics := by
+  unfold appRequest; split
+  · exact ⟨rfl, rfl⟩
+  · split <;> exact ⟨rfl, rfl⟩
+
+theorem handle_nicInv (n : Node) (key : String) (sub : Sub) (h : NicInv n) : NicInv (handle n key sub).1 := by
+  unfold handle
+  split
+  · exact powerOff_nicInv n h
+  · split
+    · exact powerOn_nicInv n h
+    · split
+      · exact reset_nicInv n h
+      · split
+        · exact h
+        · split
+          · split
+            · exact nicInv_of_same (svcRequest_nics _ _ _).1 (svcRequest_nics _ _ _).2 h
+            · exact h
+          · split
+            · exact nicInv_of_same (appRequest_nics _ _).1 (appRequest_nics _ _).2 h
+            · exact h
+          · split
+            · exact nicRequest_nicInv _ _ _ h
+            · exact h
+          · exact h
+
+theorem request_nicInv (tbl : List Route) (n : Node) (key : String) (sub : Sub) (h : NicInv n) :
+    NicInv (request tbl n key sub).1 := by
+  unfold request
+  split
+  · exact h
+  · split
+    · exact handle_nicInv n key sub h
+    · exact h
+
+theorem step_nicInv (tbl : List Route) (n : Node) (op : Op) (h : NicInv n) : NicInv (step tbl n op).1 := by
+  cases op with
+  | request key sub => exact request_nicInv tbl n key sub h
+  | tick => exact tick_nicInv n h
+  | frameIn i => exact h
+  | frameOut i => exact h
+
+/-- **not_on_nics_disabled.** For *every* route table (this needs no validator at all: `enable()` itself tests the
+node) and every sequence of requests, ticks and frames: a node that is not ON has no enabled interface. -/
+theorem C12_not_on_nics_disabled (tbl : List Route) (n : Node) (ops : List Op) (h : NicInv n) :
+    NicInv (run tbl n ops) := by
+  induction ops generalizing n with
+  | nil => exact h
+  | cons op ops ih => exact ih _ (step_nicInv tbl n op h)
+
+/-- corollary: a node that is not ON neither accepts nor emits a frame, whatever happened before -/
+theorem C12_not_on_no_traffic (tbl : List Route) (n : Node) (ops : List Op) (h : NicInv n) (i : Nat)
+    (hne : (run tbl n ops).st ≠ .on) :
+    (step tbl (run tbl n ops) (.frameIn i)).2 = .frame false ∧
+    (step tbl (run tbl n ops) (.frameOut i)).2 = .frame false := by
+  have hoff := C12_not_on_nics_disabled tbl n ops h hne
+  have : nicPasses (run tbl n ops) i = false := by
+    unfold nicPasses
+    cases hc : (run tbl n ops).nics[i]? with
+    | none => rfl
+    | some c => exact hoff c (List.mem_of_getElem? hc)
+  simp [step, this]
+
+/-- a ping between two directly linked nodes succeeds only if both ends are ON -/
+theorem C12_ping_needs_both_on (a b : Node) (hb : NicInv b) (h : pingOk a b = true) :
+    a.st = .on ∧ b.st = .on := by
+  simp only [pingOk, Bool.and_eq_true, Node.isOn, beq_iff_eq] at h
+  obtain ⟨⟨ha, _⟩, hpb⟩ := h
+  refine ⟨ha, ?_⟩
+  by_cases hbon : b.st = .on
+  · exact hbon
+  · exfalso
+    have hoff := hb hbon
+    unfold nicPasses at hpb
+    cases hc : b.nics[0]? with
+    | none => simp [hc] at hpb
+    | some c =>
+      simp only [hc] at hpb
+      have := hoff c (List.mem_of_getElem? hc)
+      simp [this] at hpb
+
+/-! ### every request other than start-up is refused while the node is not ON -/
+
+/-- **refused_unless_startup.** Under a guarded table a node that is not ON answers `failure` to every node-level
+request whose key exists and is not `startup`, and nothing changes (keys that do not exist are `unreachable`). -/
+theorem C12_refused_unless_startup {tbl : List Route} (hg : allGuarded tbl = true) (n : Node) (hne : n.st ≠ .on)
+    (key : String) (sub : Sub) (hk : key ≠ "startup") :
+    request tbl n key sub = (n, if (tbl.find? (fun r => r.key == key)).isSome then .failure else .unreachable) := by
+  rcases request_cases hg n key sub with ⟨e, hf⟩ | ⟨e, hf, _⟩ | ⟨_, hc⟩
+  · rw [e, hf]; rfl
+  · rw [e]; simp [hf]
+  · rcases hc with ⟨hk', _⟩ | ⟨_, hon⟩
+    · exact absurd hk' hk
+    · exact absurd hon hne
+
+/-- `startup` itself is refused unless the node is OFF (so it cannot cut a shutdown or a boot short) -/
+theorem C12_startup_only_from_off {tbl : List Route} (hg : allGuarded tbl = true) (n : Node) (hne : n.st ≠ .off)
+    (sub : Sub) :
+    request tbl n "startup" sub =
+      (n, if (tbl.find? (fun r => r.key == "startup")).isSome then .failure else .unreachable) := by
+  rcases request_cases hg n "startup" sub with ⟨e, hf⟩ | ⟨e, hf, _⟩ | ⟨_, hc⟩
+  · rw [e, hf]; rfl
+  · rw [e]; simp [hf]
+  · rcases hc with ⟨_, hoff⟩ | ⟨hk', _⟩
+    · exact absurd hoff hne
+    · exact absurd rfl hk'
+
+/-- a refused or unreachable request changes nothing: in a transitional state no request has any effect -/
+theorem C12_transitional_requests_inert {tbl : List Route} (hg : allGuarded tbl = true) (n : Node)
+    (h : n.st = .booting ∨ n.st = .shuttingDown) (key : String) (sub : Sub) :
+    (request tbl n key sub).1 = n := by
+  rcases request_cases hg n key sub with ⟨e, _⟩ | ⟨e, _⟩ | ⟨_, hc⟩
+  · rw [e]
+  · rw [e]
+  · rcases hc with ⟨_, hst⟩ | ⟨_, hst⟩ <;> rcases h with h | h <;> rw [h] at hst <;> cases hst
+
+end Primaite.Power
+
+/-! ### tie to the regenerated tables (Gen/Power.lean is rewritten from the source on every run) -/
+namespace Primaite.Power
+open Primaite.Gen.Power
+
+/-- the node classes the property names (plus `printer`), each with its regenerated node-level route table -/
+theorem C12_gen_classes :
+    classTables.map (·.1) = ["computer", "server", "printer", "switch", "router", "firewall", "wireless-router"] := by
+  decide
+
+/-- **the regenerated table obligation**: in every node class every node-level route carries the node-is-on
+validator, except `startup`, which carries node-is-off. (F-21: on the unrepaired tree the `acl` route of routers and the
+`internal`/`dmz`/`external` routes of firewalls carry none, and this does not check.) -/
+theorem C12_gen_routes_guarded : classTables.all (fun c => allGuarded c.2) = true := by decide
+
+/-- every class has the three power routes and the keys of a table are distinct (so `find?` = dict lookup) -/
+theorem C12_gen_routes_wellformed :
+    classTables.all (fun c =>
+      ["shutdown", "startup", "reset", "service", "application", "network_interface"].all (fun k => (c.2.map (·.key)).contains k)
+      && decide ((c.2.map (·.key)).Nodup)) = true := by decide
+
+/-- the validators test exactly `operating_state == ON` / `== OFF` -/
+theorem C12_gen_validators :
+    nodeIsOnPredicate = "node.operating_state == ON" ∧ nodeIsOffPredicate = "node.operating_state == OFF" := by decide
+
+/-- enum values and schema defaults the docs quote -/
+theorem C12_gen_constants :
+    stateValues = [("ON", 1), ("OFF", 2), ("BOOTING", 3), ("SHUTTING_DOWN", 4)] ∧
+    defaultUpDur = 3 ∧ defaultDownDur = 3 ∧ defaultUpCd = 0 ∧ defaultDownCd = 0 ∧ defaultResetting = false := by decide
+
+/-- the statement-level shape of the four power methods is the one `powerOn`/`powerOff`/`reset`/`tick` model -/
+theorem C12_gen_shapes :
+    powerOnShape = "if(start_up_duration <= 0)[operating_state=ON;_start_up_actions();nics.enable;ret True];if(operating_state == OFF)[operating_state=BOOTING;start_up_countdown=start_up_duration;ret True];ret False" ∧
+    powerOffShape = "if(shut_down_duration <= 0)[nics.disable;_shut_down_actions();operating_state=OFF;if(is_resetting)[is_resetting=False;power_on()];ret True];if(operating_state == ON)[nics.disable;operating_state=SHUTTING_DOWN;shut_down_countdown=shut_down_duration;ret True];ret False" ∧
+    resetShape = "if(operating_state.ON)[is_resetting=True;power_off();ret True];ret False" ∧
+    tickShape = "super;nics.apply_timestep;if(start_up_countdown > 0)[start_up_countdown-=1]else[if(operating_state == BOOTING)[operating_state=ON;nics.enable;_start_up_actions()]];if(shut_down_countdown > 0)[shut_down_countdown-=1]else[if(operating_state == SHUTTING_DOWN)[operating_state=OFF;_shut_down_actions();if(is_resetting)[is_resetting=False;power_on()]]];if(operating_state == ON)[software]" ∧
+    shutDownActionsShape = "self.services:stop;self.applications:close" ∧
+    startUpActionsShape = "self.services:start;self.applications:run" := ⟨rfl, rfl, rfl, rfl, rfl, rfl⟩
+
+/-- interfaces: `enable()` refuses when the node is not ON; every receive/send entry point starts with the `enabled` test -/
+theorem C12_gen_interfaces :
+    wiredEnableGuards = ["enabled", "no-node", "node-not-on", "no-link"] ∧
+    wirelessEnableGuards = ["enabled", "no-node", "node-not-on"] ∧
+    nicEntryGuarded.all (·.2) = true ∧ nicEntryGuarded.length = 8 := by decide
+
+/-- software: `_can_perform_action` tests the node, and `start`/`run`/`send`/`receive` begin with it -/
+theorem C12_gen_software_guards :
+    canPerformActionTestsNodeOn = true ∧ serviceStartGuarded = true ∧ applicationRunGuarded = true ∧
+    softwareSendGuarded = true ∧ softwareReceiveGuarded = true := by decide
+
+/-- hence, for every node class of the code: refused unless start-up -/
+theorem C12_refused_unless_startup_all_classes (cls : String) (tbl : List Route) (hc : (cls, tbl) ∈ classTables)
+    (n : Node) (hne : n.st ≠ .on) (key : String) (sub : Sub) (hk : key ≠ "startup") :
+    request tbl n key sub = (n, if (tbl.find? (fun r => r.key == key)).isSome then .failure else .unreachable) := by
+  have := List.all_eq_true.mp C12_gen_routes_guarded (cls, tbl) hc
+  exact C12_refused_unless_startup this n hne key sub hk
+
 end Primaite.Power
